@@ -21,7 +21,8 @@ from vocab import canon
 
 RULE = ("histories of 4-10 operations: evaluations of related chains (shared prefixes, absolute link arguments) over the mutating vocabulary "
         "one/mk/app/ident/copyl/ext/pair/let/getvar/vapp/vol/nocache/boom with list-valued and scalar defaults, interleaved with caller mutations "
-        "(data in place, variable value in place, variable assignment, metadata flags, deep scribble); caches: NoCache, MemoryCache (live objects, "
+        "(data in place, variable value in place, variable assignment, metadata flags, deep scribble); a second family (oracle only) with tuple-valued "
+        "results holding mutable members; caches: NoCache, MemoryCache (live objects, "
         "inspected by identity), FileCache, SQLCache, StoreCache(MemoryStore), MemoryCache+FileCache, CacheProxy(MemoryCache); non-trivial = history "
         "with a cache hit after a mutation of a returned state or an in-place mutating command")
 TRUSTED = ["modelled (LiquerModel/Iso.lean): where objects are copied — vars_clone, State.clone/next_state/as_dict/from_dict, the clone of the input state in "
@@ -99,6 +100,11 @@ def register():
     def pair(x, o):
         _log("pair", x, o)
         return [x, o]
+
+    @command
+    def tup(x):
+        _log("tup", x)
+        return (x, ["t"])      # an immutable container holding the (live) input object: outside the model's fragment, oracle only
 
     @command
     def getvar(state, name):
@@ -301,6 +307,8 @@ def meaning(text, defaults):
                 st["data"] = d + args[0]
             elif name == "pair" and len(args) == 1:
                 st["data"] = [dc(d), args[0]]
+            elif name == "tup" and not args:
+                st["data"] = (dc(d), ["t"])
             elif name == "let" and len(args) == 2 and isinstance(args[0], str):
                 vs[args[0]] = args[1]
             elif name == "getvar" and len(args) == 1 and isinstance(args[0], str):
@@ -417,7 +425,7 @@ def run_history(task):
                         if isinstance(st.data, list):
                             st.data[:] = op[2]
                     elif kind == "MI":
-                        if isinstance(st.data, list) and st.data and isinstance(st.data[0], list):
+                        if isinstance(st.data, (list, tuple)) and st.data and isinstance(st.data[0], list):
                             st.data[0][:] = op[2]
                     elif kind == "MV":
                         v = st.metadata["vars"].get(op[2])
@@ -598,6 +606,24 @@ def g_history(rng):
     return defaults, ops, uni[:16]
 
 
+def g_tuple_history(rng):
+    """oracle-only family: results that are TUPLES holding mutable members (an immutable container is not a reason to share it)"""
+    base = rng.choice([["mk-a-b", "tup"], ["mk-a", "app-b", "tup"], ["mk", "tup", "ident"], ["mk-a", "tup", "vol"], ["mk-a", "copyl", "tup"]])
+    q, pre = "/".join(base), "/".join(base[:-1])
+    ops = [("E", q)]
+    for _ in range(rng.randint(3, 7)):
+        r = rng.random()
+        if r < 0.4:
+            ops.append(("MI", rng.randrange(sum(1 for o in ops if o[0] == "E")), g_list(rng)))
+        elif r < 0.75:
+            ops.append(("E", q))
+        elif r < 0.9:
+            ops.append(("E", pre))
+        else:
+            ops.append(("E", q + "/ident"))
+    return {}, ops, ["/".join(base[:i]) for i in range(1, len(base) + 1)] + [q + "/ident"]
+
+
 def wire(ci, defaults, ops, universe):
     name, cache_on, live = CACHES[ci]
     d = ";".join("%s=%s" % (hx(k), canon(v)) for k, v in defaults.items()) or "-"
@@ -665,6 +691,10 @@ def run(ctx):
     tasks = load_corpus() + gen_tasks(ctx, count)
     results = common.pmap(run_history, tasks)
     judge(ctx, tasks, results)
+    # tuples with mutable members: implementation-side oracles only (the model's value domain has no immutable containers)
+    ttasks = [(i % len(CACHES),) + g_tuple_history(ctx.rng) for i in range(count // 6)]
+    judge(ctx, ttasks, common.pmap(run_history, ttasks))
+    ctx.count("histories", "tuple results (oracle only)", len(ttasks))
     ans = ctx.driver.ask([wire(*t) for t in tasks])
     ctx.compare("histories: result, calls, all returned states, served cache values, defaults, sharing — vs the heap model (iso.run)",
                 ["%s %r %r" % (CACHES[t[0]][0], t[1], t[2]) for t in tasks], [" | ".join(r["lines"]) for r in results], ans)
